@@ -420,6 +420,9 @@ class XmlGenerator:
             for parent in start.iterancestors():
                 for child in parent.iter(f'{{{ns}}}displaced'):
                     if child.get('marker') == marker and child.get('name') == name:
+                        if child in start.iterancestors():
+                            # the reference is inside this content; it cannot be moved into itself
+                            continue
                         return child
                 # TODO: when to stop
 
